@@ -211,6 +211,29 @@ func c06ApplyMut(r *c06Req, m c06Mut, l *c06Literal, p *c06Params) {
 	}
 }
 
+// c06TimeDeterminate: the signer package reads the real clock somewhere between nowB and nowA; the
+// case is usable only if every ttl / expiry threshold lies outside that interval (1 ms slack).
+func c06TimeDeterminate(cfg *c06SigCfg, v *c06View, nowB, nowA int64) bool {
+	p, _ := c06ParseParams(v, cfg.lit())
+	if p == nil {
+		return true
+	}
+	ageB, ageA := c06AgeNs(nowB, p)-int64(time.Millisecond), c06AgeNs(nowA, p)+int64(time.Millisecond)
+	var ths []int64
+	if ttl := cfg.ttlNs(); ttl > 0 {
+		ths = append(ths, ttl, -ttl)
+	}
+	if p.Presign {
+		ths = append(ths, p.ExpireNs)
+	}
+	for _, th := range ths {
+		if ageB <= th && th <= ageA {
+			return false
+		}
+	}
+	return true
+}
+
 func c06RunCase(in c06In, id string, seq int) vfCase {
 	obs := c06Obs{}
 	cookie := ""
@@ -222,15 +245,37 @@ func c06RunCase(in c06In, id string, seq int) vfCase {
 		panic(fmt.Sprintf("verif: harness defect: case %s has an invalid configuration: %v", id, err))
 	}
 	defer v.Close()
-	req, err := c06Build(&in, time.Now())
-	if err != nil {
-		obs.Why = err.Error()
-	} else {
+	// a ttl of a few seconds against timestamps of one second resolution: sign right after a second starts
+	phase := in.Cfg.Sig != nil && in.Plan != nil && in.Cfg.Sig.ttlNs() > 0 && in.Cfg.Sig.ttlNs() < int64(4*time.Second) &&
+		in.Plan.AgeS >= -4 && in.Plan.AgeS <= 4
+	for attempt := 0; ; attempt++ {
+		if phase || attempt > 0 {
+			if ns := time.Now().Nanosecond(); ns > int(100*time.Millisecond) {
+				time.Sleep(time.Second - time.Duration(ns) + 5*time.Millisecond)
+			}
+		}
+		obs = c06Obs{}
+		req, err := c06Build(&in, time.Now())
+		if err != nil {
+			obs.Why = err.Error()
+			break
+		}
 		wire := c06Wire(&req)
 		obs = c06Deliver(v, wire, in.JNow, cookie)
+		nowA := time.Now().UnixNano()
 		obs.Wire = c06Hex(string(wire))
+		if !obs.Delivered || in.Cfg.Sig == nil || c06TimeDeterminate(in.Cfg.Sig, obs.View, obs.NowNs, nowA) {
+			break
+		}
+		if attempt >= 5 {
+			obs = c06Obs{Why: "signature age too close to a ttl/expiry threshold for the real clock"}
+			break
+		}
 	}
 	if obs.Delivered {
+		if in.Cfg.Sig != nil {
+			obs.TTLNs = in.Cfg.Sig.ttlNs()
+		}
 		obs.Tabs = c06BuildTables(&in.Cfg, obs.View)
 		obs.Expect, obs.ExpectWhy = c06Expect(&in.Cfg, obs.View, in.JNow, obs.NowNs)
 	}
@@ -613,7 +658,7 @@ func c06AttachBasic(r *vfRand, in *c06In, focus, adv bool) int {
 var c06Keys = [][2]string{{"AKID", "SECRET"}, {"key2", "s3cr3t/with+chars="}, {"AKIDEXAMPLE", "wJalrXUtnFEMI/K7MDENG+bPxRfiCYEXAMPLEKEY"}, {"k-ü", "ключ"}}
 
 func c06AttachSig(r *vfRand, in *c06In, focus, forceQuery, adv bool) int {
-	cfg := &c06SigCfg{TTL: r.PickStr("", "10m", "10m", "1h")}
+	cfg := &c06SigCfg{TTL: r.PickStr("", "10m", "10m", "1h", "600s", "10m0.5s", "600000ms", "0.5h", "0s", "0", "1.5m")}
 	for i, n := 0, r.Range(1, 3); i < n; i++ {
 		k := c06Keys[(r.Intn(3)+i)%3]
 		if _, dup := cfg.secret(k[0]); !dup {
@@ -819,8 +864,8 @@ func c06AttachSig(r *vfRand, in *c06In, focus, forceQuery, adv bool) int {
 			return 14
 		}
 		return 1
-	case 23: // outside the ttl window (both directions)
-		cfg.TTL = "10m"
+	case 23: // outside the ttl window (both directions), ttl written in every unit / shape
+		cfg.TTL = r.PickStr("10m", "10m", "600s", "9m59.5s", "600000ms", "600000000us", "0.1h", "900ms", "500000us", "0.9s", "1.5s", "1m0.5s", "999999999ns")
 		pl.AgeS = int64(r.PickInt(660, 3600, -660, 86400*400))
 		return 18
 	case 24: // presigned url past its expiry
@@ -1067,6 +1112,24 @@ func c06Enum(step int) []c06In {
 			}
 			out = append(out, c06In{Cfg: c06Cfg{Sig: &c06SigCfg{Keys: [][2]string{{"AKID", "SECRET"}}}},
 				Req: c06Req{Method: "GET", Path: "/k", Host: "example.com"}, Plan: &pl, JNow: 1700000000, Kind: 14, Note: "access key id " + fmt.Sprintf("%q", ks[0])})
+		}
+	}
+	// signature ttl in the shapes time.ParseDuration accepts, signature dates on both sides (always, not sampled)
+	for _, ta := range []struct {
+		ttl string
+		age int64
+	}{{"900ms", 0}, {"900ms", 30}, {"900ms", -30}, {"500000us", 30}, {"0.9s", 3600}, {"1.5s", 1}, {"1.5s", 2}, {"1.5s", -30},
+		{"1m0.5s", 30}, {"1m0.5s", 90}, {"1m0.5s", -90}, {"0s", 86400}, {"2.5m", 120}, {"2.5m", 180}, {"999999999ns", 30}} {
+		for _, mode := range []string{"header", "query"} {
+			pl := c06SigPlan{Mode: mode, KeyID: "AKID", Secret: "SECRET", AgeS: ta.age, Expires: 604800, Signed: []string{"host"}, BodyAs: "actual"}
+			if mode == "header" {
+				pl.Signed = append(pl.Signed, "x-me-date")
+			} else if ta.age <= 2 && ta.age >= 0 {
+				continue // one clock-aligned case per ttl is enough
+			}
+			out = append(out, c06In{Cfg: c06Cfg{Sig: &c06SigCfg{Keys: [][2]string{{"AKID", "SECRET"}}, TTL: ta.ttl}},
+				Req: c06Req{Method: "GET", Path: "/ttl", Host: "example.com"}, Plan: &pl, JNow: 1700000000, Kind: 18,
+				Note: fmt.Sprintf("ttl %s, signature %d s old", ta.ttl, ta.age)})
 		}
 	}
 	// signature with the announced payload hash header (always, not sampled)
